@@ -28,23 +28,24 @@ impl PatchTrait for PatchArm {
         let patch_size = 12;
         let original_bytes = unsafe { read_bytes(src_ptr as *mut u8, patch_size) };
 
+        // The scratch register is r12 (ip): the one register the procedure-call standard lets a
+        // veneer clobber. r7 / r9 are callee-saved and must not be modified on the way to the target.
         let instructions: [u32; 3] = if is_src_thumb {
             [
-                // ldr r7, [pc, #0] ; 0x4F00. It will load pc + 0 into r6, so the target word
-                // bx r7 ; 4738
+                // ldr.w r12, [pc, #4] ; Thumb-2: halfwords F8DF C004. Loads the word at Align(pc, 4) + 4
                 // Reversed because of little endian
-                0x47384F00,
+                0xC004F8DF,
+                // bx r12 ; 4760, then nop ; BF00 so that the target word is aligned on 32 bit
+                0xBF004760,
                 // .word target
                 target.as_ptr() as u32,
-                // .word anything (unused)
-                0x00000000,
             ]
         } else {
             [
-                // ldr r9, [pc, #-0] ; Load pc + 8 into r9, so the target word
-                0xE51F9000,
-                // bx r9 ; Branch to the target function
-                0xE12FFF19,
+                // ldr r12, [pc, #-0] ; Load pc + 8 into r12, so the target word
+                0xE51FC000,
+                // bx r12 ; Branch to the target function
+                0xE12FFF1C,
                 // .word target
                 target.as_ptr() as u32,
             ]
@@ -56,12 +57,12 @@ impl PatchTrait for PatchArm {
         patch[4..8].copy_from_slice(&instructions[1].to_le_bytes());
         patch[8..12].copy_from_slice(&instructions[2].to_le_bytes());
 
-        // In thumb mode, if the source is not aligned on 32 bit, add a NOP to align it, so the target adress is also aligned on 32 bit
-        // If we don't do that, the load adress will be misaligned and will load the bx instruction instead of the target function.
+        // In thumb mode, if the source is not aligned on 32 bit, the load reads Align(pc, 4) + 4 = src + 6:
+        // move the target word there (over the padding NOP) so that it is the word actually loaded.
         if is_src_thumb && (src_ptr as usize % 4 != 0) {
-            patch.rotate_right(2);
-            patch[0] = 0xC0;
-            patch[1] = 0x46; // NOP instruction in Thumb mode
+            patch.copy_within(8..12, 6);
+            patch[10] = 0x00;
+            patch[11] = 0xBF; // NOP instruction in Thumb mode (never executed)
         }
 
         unsafe {
